@@ -44,7 +44,7 @@ structure Variant where
 deriving DecidableEq, Repr
 
 /-- the code in `/repo` now.  Set a flag to `true` when the corresponding `fix:` commit lands. -/
-def Variant.current : Variant := ⟨false, false, false, false⟩
+def Variant.current : Variant := ⟨true, true, true, true⟩
 
 /-- the code with all four proposed patches. -/
 def Variant.fixed : Variant := ⟨true, true, true, true⟩
